@@ -64,6 +64,9 @@ take place; distinct = distinct hash of (program, source, mode, layout).",
             "probe.mutable_variable_reassigned",
             "probe.effectful_value_read_again",
             "probe.definition_through_local_or_loop_scope",
+            "probe.null_valued_definition",
+            "probe.value_copied_from_another_node",
+            "probe.ancestor_more_than_256_levels_up",
             "probe.tree_with_zero_width_node_and_inherit",
             "probe.layout.descending",
             "probe.layout.scatter",
@@ -97,6 +100,10 @@ enum Stz {
     DefTag { query: String, name: String, mutable: bool },
     /// strict only: `set @y.NAME = "M:" TAG(@y)` — needs an own, mutable definition on @y
     Mutate { query: String, name: String },
+    /// `let @x.NAME = #null`: a definition whose value is null is still a definition
+    DefNull { query: String, name: String },
+    /// `let @b.NAME = @f.NAME`: the value is the same-named variable of another node
+    DefCopy { query: String, name: String },
     /// `let al = @x  let al.NAME = TAG(al)`: the scope is a local holding the node
     DefAlias { query: String, name: String },
     /// `for y in @ys { let y.NAME = TAG(y) }`: the scope is a loop variable
@@ -251,6 +258,21 @@ fn gen_schema(r: &mut Rng, lazy: bool) -> Schema {
                     s.stanzas.push(Stz::DefTag { query: q.into(), name: name.clone(), mutable: false });
                 }
             }
+            // a nearer definition whose value is #null is still the nearest definition
+            if r.chance(1, 3) {
+                let q = *r.pick(&["(function_definition) @x", "(block) @x", "(call) @x", "(argument_list) @x", "(expression_statement) @x"]);
+                if !s.stanzas.iter().any(|z| matches!(z, Stz::DefTag { query, .. } if query == q)) {
+                    s.stanzas.push(Stz::DefNull { query: q.into(), name: name.clone() });
+                }
+            }
+            // ... and so is one whose value is the same-named variable of another node
+            if r.chance(1, 3) {
+                let q = *r.pick(&["(function_definition body: (block) @b) @f", "(call arguments: (argument_list) @b) @f", "(assignment right: (_) @b) @f", "(expression_statement (_) @b) @f"]);
+                let target_kind = if q.contains("(block) @b") { "(block) @x" } else if q.contains("(argument_list) @b") { "(argument_list) @x" } else { "" };
+                if !s.stanzas.iter().any(|z| matches!(z, Stz::DefTag { query, .. } | Stz::DefNull { query, .. } if query == target_kind)) {
+                    s.stanzas.push(Stz::DefCopy { query: q.into(), name: name.clone() });
+                }
+            }
             // an unrelated variable on nodes between readers and the defining ancestor must not
             // stop the search for `tag`
             if r.chance(1, 2) {
@@ -361,6 +383,8 @@ fn render(s: &Schema, order: &[usize]) -> String {
                 name,
                 tag_expr("@x")
             )),
+            Stz::DefNull { query, name } => out.push_str(&format!("{}\n{{\n  let @x.{} = #null\n}}\n\n", query, name)),
+            Stz::DefCopy { query, name } => out.push_str(&format!("{}\n{{\n  let @b.{} = @f.{}\n}}\n\n", query, name, name)),
             Stz::DefAlias { query, name } => out.push_str(&format!(
                 "{}\n{{\n  let al = @x\n  let al.{} = {}\n}}\n\n",
                 query,
@@ -454,6 +478,8 @@ struct Expected {
     mutations: usize,
     shared_reads: usize,
     noncapture_scope_defs: usize,
+    null_defs: usize,
+    copy_defs: usize,
     /// graph nodes created by `(node)` definitions: their attribute maps, sorted
     shared: Vec<BTreeMap<String, String>>,
 }
@@ -468,6 +494,8 @@ fn model(s: &Schema, order: &[usize], lazy: bool, tree: &Tree, source: &str) -> 
     let mut links: BTreeMap<String, BTreeMap<usize, Node>> = BTreeMap::new();
     // (name -> node id -> index into e.shared)
     let mut shared_of: BTreeMap<String, BTreeMap<usize, usize>> = BTreeMap::new();
+    // lazy mode: (name, node) -> node whose same-named variable is the value
+    let mut copies: BTreeMap<(String, usize), Node> = BTreeMap::new();
     // two passes in lazy mode (definitions, then reads); one pass in file order in strict mode
     let passes: Vec<(Vec<usize>, bool, bool)> = if lazy {
         vec![(order.to_vec(), true, false), (order.to_vec(), false, true)]
@@ -475,6 +503,48 @@ fn model(s: &Schema, order: &[usize], lazy: bool, tree: &Tree, source: &str) -> 
         vec![(order.to_vec(), true, true)]
     };
     for (idxs, do_defs, do_reads) in passes {
+        if lazy && do_reads && !copies.is_empty() {
+            // resolve the copied values now that every definition is known (a copy of a copy
+            // resolves once its source has; whatever is left is a cycle)
+            let mut pending: Vec<((String, usize), Node)> = copies.iter().map(|(k, v)| (k.clone(), *v)).collect();
+            loop {
+                let before = pending.len();
+                let mut rest = Vec::new();
+                for ((name, b), f) in pending {
+                    let map = tags.get(&name);
+                    let mut found = map.and_then(|m| m.get(&f.id()).cloned());
+                    if found.is_none() && s.inherits.iter().any(|i| *i == name) {
+                        let mut p = f.parent();
+                        while let Some(a) = p {
+                            if let Some(t) = map.and_then(|m| m.get(&a.id())) {
+                                found = Some(t.clone());
+                                break;
+                            }
+                            p = a.parent();
+                        }
+                    }
+                    match found {
+                        None => {
+                            e.fails = true;
+                            e.why = format!("{} undefined on {} when copied", name, tag_of(&f));
+                        }
+                        Some(v) if v.starts_with('\u{0}') => rest.push(((name, b), f)),
+                        Some(v) => {
+                            tags.get_mut(&name).unwrap().insert(b, v);
+                        }
+                    }
+                }
+                pending = rest;
+                if pending.is_empty() {
+                    break;
+                }
+                if pending.len() == before {
+                    e.fails = true;
+                    e.why = "a copied scoped variable depends on itself".into();
+                    break;
+                }
+            }
+        }
         for idx in idxs {
             if e.fails && !lazy {
                 break; // strict execution stops at the first error
@@ -553,6 +623,66 @@ fn model(s: &Schema, order: &[usize], lazy: bool, tree: &Tree, source: &str) -> 
                                 e.fails = true;
                                 e.why = format!("{} defined twice on {}", name, tag_of(&n));
                             }
+                        }
+                    }
+                }
+                Stz::DefNull { query, name } if do_defs => {
+                    for m in matches(query, "x", tree, source)? {
+                        for n in m {
+                            e.definitions += 1;
+                            e.null_defs += 1;
+                            if tags.entry(name.clone()).or_default().insert(n.id(), "#null".to_string()).is_some() {
+                                e.fails = true;
+                                e.why = format!("{} defined twice on {}", name, tag_of(&n));
+                            }
+                        }
+                    }
+                }
+                Stz::DefCopy { query, name } if do_defs => {
+                    let fs = matches(query, "f", tree, source)?;
+                    let bs = matches(query, "b", tree, source)?;
+                    for (f, b) in fs.iter().zip(bs.iter()) {
+                        e.definitions += 1;
+                        e.copy_defs += 1;
+                        if lazy {
+                            // resolved when forced: after every definition is known
+                            if tags.get(name).map(|m| m.contains_key(&b[0].id())).unwrap_or(false) || copies.insert((name.clone(), b[0].id()), f[0]).is_some() {
+                                e.fails = true;
+                                e.why = format!("{} defined twice on {}", name, tag_of(&b[0]));
+                            }
+                            // placeholder so that duplicates and inherit walks see the definition
+                            tags.entry(name.clone()).or_default().insert(b[0].id(), "\u{0}copy".to_string());
+                        } else {
+                            let v = {
+                                let map = tags.get(name);
+                                let mut found = map.and_then(|m| m.get(&f[0].id()).cloned());
+                                if found.is_none() && s.inherits.iter().any(|i| i == name) {
+                                    let mut p = f[0].parent();
+                                    while let Some(a) = p {
+                                        if let Some(t) = map.and_then(|m| m.get(&a.id())) {
+                                            found = Some(t.clone());
+                                            break;
+                                        }
+                                        p = a.parent();
+                                    }
+                                }
+                                found
+                            };
+                            match v {
+                                Some(v) => {
+                                    if tags.entry(name.clone()).or_default().insert(b[0].id(), v).is_some() {
+                                        e.fails = true;
+                                        e.why = format!("{} defined twice on {}", name, tag_of(&b[0]));
+                                    }
+                                }
+                                None => {
+                                    e.fails = true;
+                                    e.why = format!("{} undefined on {} when copied", name, tag_of(&f[0]));
+                                }
+                            }
+                        }
+                        if e.fails && !lazy {
+                            break;
                         }
                     }
                 }
@@ -708,6 +838,8 @@ fn schema_to_json(s: &Schema) -> J {
             Stz::Mutate { query, name } => json!({"k": "mutate", "query": query, "name": name}),
             Stz::DefNode { query, name } => json!({"k": "defnode", "query": query, "name": name}),
             Stz::DefAlias { query, name } => json!({"k": "defalias", "query": query, "name": name}),
+            Stz::DefNull { query, name } => json!({"k": "defnull", "query": query, "name": name}),
+            Stz::DefCopy { query, name } => json!({"k": "defcopy", "query": query, "name": name}),
             Stz::DefElems { query, name } => json!({"k": "defelems", "query": query, "name": name}),
             Stz::ReadNode { query, name } => json!({"k": "readnode", "query": query, "name": name}),
             Stz::DefLink { query, name } => json!({"k": "deflink", "query": query, "name": name}),
@@ -738,6 +870,8 @@ fn schema_from_json(j: &J) -> Schema {
                         "mutate" => Stz::Mutate { query: g(x, "query"), name: g(x, "name") },
                         "defnode" => Stz::DefNode { query: g(x, "query"), name: g(x, "name") },
                         "defalias" => Stz::DefAlias { query: g(x, "query"), name: g(x, "name") },
+                        "defnull" => Stz::DefNull { query: g(x, "query"), name: g(x, "name") },
+                        "defcopy" => Stz::DefCopy { query: g(x, "query"), name: g(x, "name") },
                         "defelems" => Stz::DefElems { query: g(x, "query"), name: g(x, "name") },
                         "readnode" => Stz::ReadNode { query: g(x, "query"), name: g(x, "name") },
                         "deflink" => Stz::DefLink { query: g(x, "query"), name: g(x, "name") },
@@ -766,6 +900,9 @@ pub struct Stats {
     pub shared_reads: usize,
     pub zero_width_nodes: usize,
     pub noncapture_scope_defs: usize,
+    pub null_defs: usize,
+    pub copy_defs: usize,
+    pub deep: bool,
     pub outcome: &'static str,
     pub leaked: i64,
     pub transcript: u64,
@@ -799,6 +936,8 @@ fn check_case(case: &Case) -> Result<(Stats, Option<Found>), String> {
     st.mutations = exp.mutations;
     st.shared_reads = exp.shared_reads;
     st.noncapture_scope_defs = exp.noncapture_scope_defs;
+    st.null_defs = exp.null_defs;
+    st.copy_defs = exp.copy_defs;
     let file = simrun::load(&case.text).map_err(|e| format!("schema program rejected: {}\n{}", e, case.text))?;
     let fns = simrun::functions();
     let vars = simrun::make_variables(&Vec::new(), &[]);
@@ -842,6 +981,7 @@ fn check_case(case: &Case) -> Result<(Stats, Option<Found>), String> {
             for n in &g.nodes {
                 let get = |k: &str| match n.attrs.get(k) {
                     Some(CVal::Str(s)) => Some(s.clone()),
+                    Some(CVal::Null) => Some("#null".to_string()),
                     _ => None,
                 };
                 if !n.attrs.contains_key("rd") {
@@ -922,7 +1062,8 @@ pub fn make_case(ctx: &ShardCtx, i: u64) -> Case {
     } else {
         // strict needs definers first
         order.sort_by_key(|i| match schema.stanzas[*i] {
-            Stz::DefTag { .. } | Stz::DefLink { .. } | Stz::DefInLoop { .. } | Stz::DefNode { .. } | Stz::DefAlias { .. } | Stz::DefElems { .. } => 0,
+            Stz::DefTag { .. } | Stz::DefLink { .. } | Stz::DefInLoop { .. } | Stz::DefNode { .. } | Stz::DefAlias { .. } | Stz::DefElems { .. } | Stz::DefNull { .. } => 0,
+            Stz::DefCopy { .. } => 1,
             Stz::Mutate { .. } => 1,
             _ => 2,
         });
@@ -934,7 +1075,23 @@ pub fn make_case(ctx: &ShardCtx, i: u64) -> Case {
         syntax_errors: if r.chance(1, 6) { 1 } else { 0 },
         ..Default::default()
     };
-    let source = pysrc::gen_source(&mut Rng::sub(seed, "src"), &scfg);
+    let mut source = pysrc::gen_source(&mut Rng::sub(seed, "src"), &scfg);
+    let mut schema = schema;
+    let mut order = order;
+    if r.chance(1, 50) {
+        // the nearest definer is several hundred levels above the reader
+        let depth = r.range(257, 400);
+        source = format!("deep = {}1{}\n", "(".repeat(depth), ")".repeat(depth));
+        schema = Schema {
+            inherits: vec!["tag".into()],
+            stanzas: vec![
+                Stz::DefTag { query: "(module) @x".into(), name: "tag".into(), mutable: false },
+                Stz::ReadDirect { query: "(integer) @y".into(), name: "tag".into() },
+                Stz::ReadDirect { query: "(assignment) @y".into(), name: "tag".into() },
+            ],
+        };
+        order = vec![0, 1, 2];
+    }
     Case {
         text: render(&schema, &order),
         order: order.clone(),
@@ -1090,6 +1247,13 @@ pub fn run_shard(ctx: &ShardCtx, rep: &mut Report) {
             rep.add("probe.effectful_value_read_again", st.shared_reads as u64);
         }
         rep.add("probe.definition_through_local_or_loop_scope", st.noncapture_scope_defs as u64);
+        if !st.expected_fail {
+            rep.add("probe.null_valued_definition", st.null_defs as u64);
+            rep.add("probe.value_copied_from_another_node", st.copy_defs as u64);
+        }
+        if case.source.starts_with("deep = ") && !st.expected_fail {
+            rep.count("probe.ancestor_more_than_256_levels_up");
+        }
         if st.zero_width_nodes > 0 && st.inherited_reads > 0 {
             rep.count("probe.tree_with_zero_width_node_and_inherit");
         }
@@ -1149,7 +1313,7 @@ pub fn run_shard(ctx: &ShardCtx, rep: &mut Report) {
 fn case_stanza_is_def(c: &Case, i: usize) -> bool {
     c.schema
         .as_ref()
-        .map(|s| matches!(s.stanzas[i], Stz::DefTag { .. } | Stz::DefLink { .. } | Stz::DefInLoop { .. } | Stz::DefNode { .. } | Stz::DefAlias { .. } | Stz::DefElems { .. }))
+        .map(|s| matches!(s.stanzas[i], Stz::DefTag { .. } | Stz::DefLink { .. } | Stz::DefInLoop { .. } | Stz::DefNode { .. } | Stz::DefAlias { .. } | Stz::DefElems { .. } | Stz::DefNull { .. } | Stz::DefCopy { .. }))
         .unwrap_or(false)
 }
 
